@@ -213,3 +213,47 @@ pub fn render_event(case: &Value) -> Value {
         "from_lm": compile_text(&lmtext),
     })
 }
+
+/// C03: one-shot solver entry point on a source text.
+pub fn e2e_event(case: &Value) -> Value {
+    let mut ev = case.clone();
+    let src = case["text"].as_str().unwrap().to_string();
+    let res = catch_unwind(AssertUnwindSafe(|| {
+        let solver = match rooc::RoocSolver::try_new(src.clone()) {
+            Ok(s) => s,
+            Err(e) => return json!({"out":"parse_error","why":e.to_string()}),
+        };
+        match solver.solve_using(rooc::auto_solver) {
+            Ok(sol) => {
+                let point: Vec<Value> = sol
+                    .assignment()
+                    .iter()
+                    .map(|a| {
+                        let f: f64 = a.value.into();
+                        json!({"name":a.name,"v":crate::lp::num_obs(f)})
+                    })
+                    .collect();
+                json!({"out":"solution","point":point,"value":crate::lp::num_obs(sol.value())})
+            }
+            Err(rooc::RoocSolverError::Transform(e)) => json!({"out":"transform_error","why":e.to_string()}),
+            Err(rooc::RoocSolverError::Linearization(e)) => json!({"out":"linearization_error","why":e.to_string()}),
+            Err(rooc::RoocSolverError::Solver(e)) => {
+                let k = format!("{:?}", e);
+                let k = k.split(|c: char| !c.is_alphanumeric()).next().unwrap_or("").to_string();
+                json!({"out":"solver_error","kind":k,"why":e.to_string()})
+            }
+        }
+    }));
+    let r = res.unwrap_or_else(|p| json!({"out":"panic","why":panic_msg(p)}));
+    for (k, v) in r.as_object().unwrap() {
+        ev[k] = v.clone();
+    }
+    if ev.get("kind").is_none() {
+        ev["kind"] = json!("");
+    }
+    if ev.get("point").is_none() {
+        ev["point"] = json!([]);
+        ev["value"] = crate::lp::num_obs(0.0);
+    }
+    ev
+}
